@@ -397,6 +397,48 @@ w('C09', 'withdrawal allocates two L2 sequences (gap)', 'C09.R4',
 w('C09', 'L2 increment helper returns the post-increment value', 'C09.R4',
   (SEQ, '\t\tif err := k.NextL2Sequence.Set(ctx, types.DefaultL2SequenceStart+1); err != nil {\n\t\t\treturn 0, err\n\t\t}\n\n\t\treturn types.DefaultL2SequenceStart, nil\n\t}\n\n\treturn nextL2Sequence, nil', '\t\tif err := k.NextL2Sequence.Set(ctx, types.DefaultL2SequenceStart+1); err != nil {\n\t\t\treturn 0, err\n\t\t}\n\n\t\treturn types.DefaultL2SequenceStart, nil\n\t}\n\n\treturn nextL2Sequence + 1, nil'))
 
+
+CT='x/opchild/types/tx.go'
+# ---------------- C04
+w('C04', '(repaired tree) IsUint64 bound removed from the L2 withdrawal validator', 'C04.R1',
+  (CT, ' || !msg.Amount.IsPositive() || !msg.Amount.Amount.IsUint64() {', ' || !msg.Amount.IsPositive() {'))
+w('C04', '(repaired tree) IsUint64 bound removed from the L1 deposit validator', 'C04.R1',
+  (HT, '\tif !msg.Amount.IsValid() || !msg.Amount.Amount.IsUint64() {', '\tif !msg.Amount.IsValid() {'))
+w('C04', 'bound weakened to BitLen <= 65', 'C04.R1',
+  (CT, ' || !msg.Amount.IsPositive() || !msg.Amount.Amount.IsUint64() {', ' || !msg.Amount.IsPositive() || msg.Amount.Amount.BigInt().BitLen() > 65 {'))
+w('C04', 'refund swaps req.To / req.From', 'C04.R3',
+  (CM, 'types.NewMsgInitiateTokenWithdrawal(req.To, req.From, coin), l2Sequence)', 'types.NewMsgInitiateTokenWithdrawal(req.From, req.To, coin), l2Sequence)'))
+w('C04', 'constructor swaps sender and recipient', 'C04.R3',
+  (CT, '\treturn &MsgInitiateTokenWithdrawal{\n\t\tSender: sender,\n\t\tTo:     to,', '\treturn &MsgInitiateTokenWithdrawal{\n\t\tSender: to,\n\t\tTo:     sender,'))
+w('C04', 'withdrawal event drops base_denom', 'C04.R2',
+  (CM, '\t\tsdk.NewAttribute(types.AttributeKeyBaseDenom, baseDenom),\n', ''),
+  (CM, '\tbaseDenom, err := ms.GetBaseDenom(ctx, coin.Denom)\n', '\t_, err := ms.GetBaseDenom(ctx, coin.Denom)\n'))
+w('C04', 'withdrawal event announces the L2 denom as base_denom', 'C04.R2',
+  (CM, 'sdk.NewAttribute(types.AttributeKeyBaseDenom, baseDenom),', 'sdk.NewAttribute(types.AttributeKeyBaseDenom, coin.Denom),'),
+  (CM, '\tbaseDenom, err := ms.GetBaseDenom(ctx, coin.Denom)\n', '\t_, err := ms.GetBaseDenom(ctx, coin.Denom)\n'))
+w('C04', 'L2 withdrawal validator accepts zero amounts (L1 claim rejects them)', 'C04.R4',
+  (CT, '\tif !msg.Amount.IsValid() || !msg.Amount.IsPositive() || !msg.Amount.Amount.IsUint64() {', '\tif !msg.Amount.IsValid() || !msg.Amount.Amount.IsUint64() {'))
+w('C04', 'BENIGN: bound expressed as BitLen() <= 64', '',
+  (CT, ' || !msg.Amount.IsPositive() || !msg.Amount.Amount.IsUint64() {', ' || !msg.Amount.IsPositive() || msg.Amount.Amount.BigInt().BitLen() > 64 {'))
+
+# ---------------- C08
+w('C08', 'mint req.Amount but announce amount-1 in the deposit event (L1 side)', 'C08.R1',
+  (HM, '\t\tsdk.NewAttribute(types.AttributeKeyAmount, coin.Amount.String()),\n\t\tsdk.NewAttribute(types.AttributeKeyData,', '\t\tsdk.NewAttribute(types.AttributeKeyAmount, coin.Amount.SubRaw(1).String()),\n\t\tsdk.NewAttribute(types.AttributeKeyData,'))
+w('C08', 'wire value of the l1_sequence attribute key changed', 'C08.R2',
+  ('x/ophost/types/event.go', 'AttributeKeyL1Sequence             = "l1_sequence"', 'AttributeKeyL1Sequence             = "l1_seq"'))
+w('C08', 'safeDepositToken mints twice the coins it was given', 'C08.R1',
+  (DEP, 'ms.bankKeeper.MintCoins(cacheCtx, types.ModuleName, coins)', 'ms.bankKeeper.MintCoins(cacheCtx, types.ModuleName, coins.Add(coins...))'))
+w('C08', 'handler credits a different coin than req.Amount', 'C08.R1',
+  (CM, 'depositSuccess, reason = ms.safeDepositToken(ctx, toAddr, sdk.NewCoins(coin))', 'depositSuccess, reason = ms.safeDepositToken(ctx, toAddr, sdk.NewCoins(sdk.NewCoin(coin.Denom, coin.Amount.AddRaw(1))))'))
+w('C08', 'withdrawal announces a different amount than it burns', 'C08.R1',
+  (CM, '\t\tsdk.NewAttribute(types.AttributeKeyAmount, coin.Amount.String()),\n\t\tsdk.NewAttribute(types.AttributeKeyL2Sequence,', '\t\tsdk.NewAttribute(types.AttributeKeyAmount, coin.Amount.MulRaw(2).String()),\n\t\tsdk.NewAttribute(types.AttributeKeyL2Sequence,'))
+w('C08', 'deposit event drops l2_denom', 'C08.R2',
+  (HM, '\t\tsdk.NewAttribute(types.AttributeKeyL2Denom, l2Denom),\n\t\tsdk.NewAttribute(types.AttributeKeyAmount, coin.Amount.String()),\n\t\tsdk.NewAttribute(types.AttributeKeyData,', '\t\tsdk.NewAttribute(types.AttributeKeyAmount, coin.Amount.String()),\n\t\tsdk.NewAttribute(types.AttributeKeyData,'))
+w('C08', 'finalize event derives the l2 denom from another bridge id', 'C08.R3',
+  (HM, 'sdk.NewAttribute(types.AttributeKeyL2Denom, types.L2Denom(bridgeId, denom)),', 'sdk.NewAttribute(types.AttributeKeyL2Denom, types.L2Denom(outputIndex, denom)),'))
+w('C08', 'token pair keyed by the l1 denom instead of the derived l2 denom', 'C08.R3',
+  (HM, 'if ok, err := ms.HasTokenPair(ctx, bridgeId, l2Denom); err != nil {', 'if ok, err := ms.HasTokenPair(ctx, bridgeId, coin.Denom); err != nil {'))
+
 #@@MORE@@
 for p,l in W.items():
     json.dump(l, open(os.path.join(HERE,p+'.json'),'w'), indent=1)
